@@ -25,4 +25,15 @@ def earlyExitPre {α : Type} (o : Option α) (restPre : Bool) : Bool :=
   | some _ => true
   | none => restPre
 
+/-- result of a translated `for` loop: `some r` = the body executed `return r`; `none` = the loop
+    ran to completion with the carried variables in the second component -/
+def loopExit {α σ : Type} (r : Option α × σ) (k : σ → α) : α :=
+  match r with
+  | (some x, _) => x
+  | (none, s) => k s
+def loopExitPre {α σ : Type} (r : Option α × σ) (k : σ → Bool) : Bool :=
+  match r with
+  | (some _, _) => true
+  | (none, s) => k s
+
 end AdaptaVerif.Gen
